@@ -161,6 +161,8 @@ def run(ctx, prop):
     cases = corpus_cases(prop)
     for i in range(n_cases):
         cases.append(gen.gen_case(ctx.rng, opts, cid=f"{prop}-{ctx.seed}-{i}"))
+    for i in range(4):
+        cases.append(gen.big_iface_case(ctx.rng, cid=f"{prop}-big-{ctx.seed}-{i}", grouped=(i % 2 == 1)))
     oracle_fail, disagree = [], []
     samples, distinct = [], set()
     hist = {"depth>=2": 0, "depth>=3": 0, "multi_file": 0, "errors": 0, "methods": 0, "rejected": 0}
